@@ -498,4 +498,131 @@ example :
       (·.countP (fun f => f.1 == [120, 45, 97]))) = some 3 ∧ ordinary [120, 45, 97] = true := by
   decide
 
+/-! ### the writer's own fields next to the caller's (HTTP/1.1): exactly once -/
+
+theorem countP_key_linesOf_single (k : Bytes) (kv : KV) :
+    (linesOf [kv]).countP (fun l => l.1 == k) = if kv.key == k then kv.values.length else 0 := by
+  simp only [linesOf, List.flatMap_cons, List.flatMap_nil, List.append_nil, List.countP_map]
+  split
+  next h =>
+    rw [List.countP_eq_length.mpr]
+    intro v _; simpa [Function.comp] using h
+  next h =>
+    apply List.countP_eq_zero.mpr
+    intro v _; simpa [Function.comp] using h
+
+theorem countP_key_linesOf_zero (k : Bytes) (l : List KV) (h : ∀ kv ∈ l, (kv.key == k) = false) :
+    (linesOf l).countP (fun l => l.1 == k) = 0 := by
+  induction l with
+  | nil => rfl
+  | cons x xs ih =>
+    rw [linesOf_cons, List.countP_append, countP_key_linesOf_single, h x (List.mem_cons_self ..),
+      ih (fun kv hkv => h kv (List.mem_cons_of_mem _ hkv))]
+    rfl
+
+/-- a name the HTTP/1.1 writer excludes from the caller's map (exact spelling) is written by the
+writer alone: the number of such lines is the number of lines the writer itself produces. -/
+theorem excluded_key_count (r : WReq) (host : Bytes) (f : Framing) (k : Bytes)
+    (hk : reqWriteExcludeHeader.contains k = true) (hextra : ∀ kv ∈ r.extra, (kv.key == k) = false) :
+    (linesOf (h1Fields r host f)).countP (fun l => l.1 == k) =
+      (linesOf (ownFieldsH1 r host f)).countP (fun l => l.1 == k) := by
+  rw [(wire_set_h1 r host f).countP_eq]
+  simp only [List.countP_append]
+  have h1 : (linesOf (callerFields r.header reqWriteExcludeHeader)).countP (fun l => l.1 == k) = 0 := by
+    apply countP_key_linesOf_zero
+    intro kv hkv
+    cases hb : kv.key == k with
+    | false => rfl
+    | true =>
+      have : kv.key = k := by simpa using hb
+      have := (callerFields_mem_key hkv).1
+      simp_all
+  have h2 : (linesOf (callerFields r.extra [])).countP (fun l => l.1 == k) = 0 := by
+    apply countP_key_linesOf_zero
+    intro kv hkv
+    unfold callerFields at hkv
+    obtain ⟨kv0, h0, rfl⟩ := List.mem_map.mp hkv
+    exact hextra kv0 (List.mem_filter.mp h0).1
+  omega
+
+/-- **`Host` exactly once**, whatever the caller put under `Host` in the header map (the caller's
+override travels in `Request.Host`) and whatever the order list. -/
+theorem host_exactly_once (r : WReq) (host : Bytes) (f : Framing)
+    (hextra : ∀ kv ∈ r.extra, (kv.key == sHost) = false) :
+    (linesOf (h1Fields r host f)).countP (fun l => l.1 == sHost) = 1 := by
+  rw [excluded_key_count r host f sHost (by decide) hextra]
+  unfold ownFieldsH1
+  simp only [linesOf_append, List.countP_append]
+  have h1 : (linesOf [(⟨sHost, [host]⟩ : KV)]).countP (fun l => l.1 == sHost) = 1 := by
+    rw [countP_key_linesOf_single]; simp
+  have h2 : ∀ (c : Prop) [Decidable c] (v : List Bytes),
+      (linesOf (if c then [] else [(⟨sUserAgent, v⟩ : KV)])).countP (fun l => l.1 == sHost) = 0 := by
+    intro c _ v
+    apply countP_key_linesOf_zero
+    intro kv hkv
+    rw [mem_ite_r hkv]; exact (by decide : (sUserAgent == sHost) = false)
+  have h3 : (linesOf (framingFields r f)).countP (fun l => l.1 == sHost) = 0 := by
+    apply countP_key_linesOf_zero
+    intro kv hkv
+    have hk : kv.key ∈ ownKeysH1 := ownFieldsH1_keys r host f kv (by
+      unfold ownFieldsH1; exact List.mem_append_right _ hkv)
+    unfold framingFields at hkv
+    simp only [List.mem_append] at hkv
+    rcases hkv with hkv | hkv
+    · rw [mem_ite_l hkv]; exact (by decide : (sConnection == sHost) = false)
+    · rcases mem_ite_lr hkv with h | h
+      · rw [h]; exact (by decide : (sContentLength == sHost) = false)
+      · rw [h]; exact (by decide : (sTransferEncoding == sHost) = false)
+  rw [h1, h2, h3]
+
+/-- **`User-Agent` at most once; the caller's empty value suppresses it**: with a `User-Agent`
+entry whose first value is empty (or that has no value) no `User-Agent` line is written; otherwise
+exactly one (the caller's first value, or the default). -/
+theorem user_agent_once (r : WReq) (host : Bytes) (f : Framing)
+    (hextra : ∀ kv ∈ r.extra, (kv.key == sUserAgent) = false) :
+    (linesOf (h1Fields r host f)).countP (fun l => l.1 == sUserAgent) =
+      if (hdrGet? r.header sUserAgent).isSome && (hdrFirst r.header sUserAgent).isEmpty then 0 else 1 := by
+  rw [excluded_key_count r host f sUserAgent (by decide) hextra]
+  unfold ownFieldsH1
+  simp only [linesOf_append, List.countP_append]
+  have h1 : (linesOf [(⟨sHost, [host]⟩ : KV)]).countP (fun l => l.1 == sUserAgent) = 0 := by
+    rw [countP_key_linesOf_single]; simp; decide
+  have h3 : (linesOf (framingFields r f)).countP (fun l => l.1 == sUserAgent) = 0 := by
+    apply countP_key_linesOf_zero
+    intro kv hkv
+    unfold framingFields at hkv
+    simp only [List.mem_append] at hkv
+    rcases hkv with hkv | hkv
+    · rw [mem_ite_l hkv]; exact (by decide : (sConnection == sUserAgent) = false)
+    · rcases mem_ite_lr hkv with h | h
+      · rw [h]; exact (by decide : (sContentLength == sUserAgent) = false)
+      · rw [h]; exact (by decide : (sTransferEncoding == sUserAgent) = false)
+  rw [h1, h3]
+  cases hs : (hdrGet? r.header sUserAgent).isSome with
+  | false =>
+    simp only [Bool.false_eq_true, if_false, Bool.false_and]
+    have : defaultUserAgent.isEmpty = false := by decide
+    simp [this, countP_key_linesOf_single]
+  | true =>
+    simp only [if_true, Bool.true_and]
+    cases he : (hdrFirst r.header sUserAgent).isEmpty with
+    | true => simp [linesOf]
+    | false => simp [countP_key_linesOf_single]
+
+/-- **the caller's `Accept-Encoding` suppresses the transport's**: when the caller set a
+non-empty `Accept-Encoding` the transport adds none of its own (so the caller's values are the
+only ones on the wire, by `wire_set_h1`). -/
+theorem accept_encoding_caller_wins (dc dk : Bool) (r : WReq)
+    (h : (Req.Resend.hget r.header Req.Resend.sAcceptEncoding).isEmpty = false) :
+    ∀ kv ∈ Req.Resend.transportExtra dc dk r, (kv.key == Req.Resend.sAcceptEncoding) = false := by
+  intro kv hkv
+  unfold Req.Resend.transportExtra at hkv
+  simp only [h, Bool.and_false, Bool.false_and, Bool.false_eq_true, if_false, List.nil_append] at hkv
+  rw [mem_ite_l hkv]; decide
+
+example :
+    (linesOf (h1Fields { method := [71, 69, 84], url := {}, header :=
+      [⟨sHost, [[120]]⟩, ⟨sUserAgent, [[]]⟩, ⟨[104, 111, 115, 116], [[121]]⟩] } [104] ⟨false, false, 0⟩))
+    = [(sHost, [104]), ([104, 111, 115, 116], [121])] := by decide
+
 end Req.Props.C16Wire
